@@ -389,10 +389,22 @@ fn interrupt_lost() {
 /// C17 (liveness form): after the host's interrupt() the evaluation neither returns an error nor a
 /// value: the target parks with nobody left to unpark it.  No scheduling is forced: the request is
 /// made while the script is in a loop of primitive calls, which is all the solver's schedule needs.
+static DRAINED: AtomicBool = AtomicBool::new(false);
+fn drain_token_callback(id: u32, _arg: usize) {
+    // The engine thread usually carries a stale unpark token (every world-stop it performs ends
+    // with resume_threads unparking all registered threads, itself included).  The solver's
+    // schedule starts from "no token", a state the real system reaches whenever the thread has
+    // really parked once; it is established here by consuming the token.
+    if id == hook::POLL && !DRAINED.swap(true, Ordering::SeqCst) {
+        std::thread::park_timeout(Duration::from_millis(0));
+    }
+}
+
 #[test]
 fn interrupt_hang() {
     let mut engine = Engine::new();
     let controller = engine.get_thread_state_controller();
+    hook::set(Some(drain_token_callback));
     engine
         .run("(define (busy n acc) (if (= n 0) acc (busy (- n 1) (+ acc (length (list n n))))))".to_string())
         .unwrap();
